@@ -148,6 +148,7 @@ type FnVC struct {
 	ptrCells map[*ssa.Alloc]*Addr
 	freeVars []*ssa.FreeVar
 	freshObjs []freshObj
+	afterHavoc bool
 	axioms []string
 	tablesUsed map[string]bool
 	tableInfo map[string]*tableInfo
@@ -281,7 +282,7 @@ func (vc *FnVC) curIn(st *State, key string) string {
 		panic("unregistered key " + key)
 	}
 	ep := st.epoch
-	if !isHeapKey(key) || vc.eng.immutableGlobalKey(key) {
+	if !isHeapKey(key) || vc.eng.immutableGlobalKey(key) || vc.immutableKey(key) {
 		ep = 0
 	}
 	n := fmt.Sprintf("%s@e%d", sanitizeKey(key), ep)
@@ -334,9 +335,32 @@ func (vc *FnVC) fieldKey(st types.Type, field int) (string, Sort, types.Type) {
 	return key, fs, f.Type()
 }
 
+// memTypeName: backing stores are separated by Go element type (two slice types with different element types can
+// never share a backing array), so that e.g. the immutable syntax tree is not touched by writes to value lists.
+func memTypeName(t types.Type) string {
+	switch u := t.(type) {
+	case *types.Basic:
+		return types.Typ[u.Kind()].Name()
+	case *types.Alias:
+		return memTypeName(types.Unalias(u))
+	case *types.Pointer:
+		return "P_" + memTypeName(u.Elem())
+	case *types.Named:
+		if u.Obj().Pkg() != nil {
+			return u.Obj().Pkg().Name() + "." + u.Obj().Name()
+		}
+		return u.Obj().Name()
+	case *types.Slice:
+		return "S_" + memTypeName(u.Elem())
+	case *types.Array:
+		return fmt.Sprintf("A%d_", u.Len()) + memTypeName(u.Elem())
+	}
+	return sanitize(typeKey(t))
+}
+
 func (vc *FnVC) memKey(elem types.Type) (string, Sort) {
 	es := vc.sorts.sortOf(elem)
-	key := "Mem$" + sortKey(es)
+	key := "Mem$" + sanitize(memTypeName(elem))
 	vc.registerKey(key, "(Array Int (Array Int "+es+"))")
 	return key, es
 }
@@ -905,4 +929,19 @@ func (vc *FnVC) checkFreshObjs(ret *ssa.BasicBlock) {
 			vc.assert("field-invariant", key+" initialised before return", nonNilTerm(sSelect(vc.cur(key), fo.ref), fs))
 		}
 	}
+}
+
+// immutableKey: syntax-tree storage is immutable for every function outside the packages that build the tree.
+func (vc *FnVC) immutableKey(k string) bool {
+	root := vc.fn
+	for root.Parent() != nil {
+		root = root.Parent()
+	}
+	if root.Pkg != nil {
+		switch root.Pkg.Pkg.Name() {
+		case "syntax", "zh":
+			return false
+		}
+	}
+	return vc.eng.immutableHeapKey(k)
 }
